@@ -99,11 +99,15 @@ Dup(r)       == [t |-> "dup", r |-> r]                       \* ( r ) \k  -- a g
 IChr(c)      == [k |-> "c", c |-> c]
 IRng(lo, hi) == [k |-> "r", lo |-> lo, hi |-> hi]
 IEsc(e, cat) == [k |-> "e", e |-> e, cat |-> cat]
+(* a range lo-\X whose END point is a metacharacter X that is no alphabet member and is written as a
+   single-character escape; hi = the greatest alphabet member below X:  5-\^ (^ = #x5E lies between A and _)
+   contains 5 and A,  a-\} (} = #x7D lies above b) contains a and b *)
+IRngX(lo, hi, x) == [k |-> "rx", lo |-> lo, hi |-> hi, x |-> x]
 Cls(items, neg, sub) == [t |-> "cls", items |-> items, neg |-> neg, sub |-> sub]   \* sub = <<>> or <<class>>
 
 (* ---- character class algebra ------------------------------------------- *)
 ItemSet(it) == CASE it.k = "c" -> {it.c}
-                 [] it.k = "r" -> {x \in Sigma : it.lo <= x /\ x <= it.hi}
+                 [] it.k \in {"r", "rx"} -> {x \in Sigma : it.lo <= x /\ x <= it.hi}
                  [] it.k = "e" -> EscSet(it.e, it.cat)
 BaseSet(items) == UNION {ItemSet(items[n]) : n \in 1..Len(items)}
 
